@@ -11,7 +11,7 @@ RULE = ("Formula: strands of length 0..300 (quick) / 0..2,000 (thorough) incl. l
         "1..128 (dense in 1..12), compared with an independent implementation of the stated formula. Edits: for each drawn strand of "
         "length <= 40 ALL single substitutions and ALL single C/G/T insertions and deletions are enumerated; each "
         "neighbour must have a different check and decode(neighbour, vt_check=original) on the complete graph must "
-        "raise ValueError. Non-trivial (formula): >= 1 ascent and position sum >= 4^(n-1) (the modulus matters); "
+        "raise ValueError. Non-trivial (formula): >= 1 ascent and position sum >= 4^(n-1) (the modulus matters) or a reduced sum >= 2^32; "
         "(edits): strand length >= 2.")
 ASSUMPTIONS = ["strands are over A, C, G, T; check length n >= 1",
                "insertions/deletions of A are excluded, as in the statement (A has value 0 and can be invisible)"]
@@ -61,6 +61,9 @@ def evaluate_formula(case):
         labels.append("modulus_matters")
     if asc >= 32768:
         labels.append("ascent_sum>=2^15")
+    wide = n >= 2 and asc % 4 ** (n - 1) >= 2 ** 32
+    if wide:
+        labels.append("reduced_sum>=2^32")
     if isinstance(got, Raised):
         return bad("set_vt(%r.. [%d nt], %d) raised %r" % (strand[:40], len(strand), n, got), labels)
     if not isinstance(got, str) or len(got) != n:
@@ -69,7 +72,7 @@ def evaluate_formula(case):
     if got != want:
         return bad("set_vt(%r.. [%d nt], %d) = %r, the documented function gives %r"
                    % (strand[:40], len(strand), n, got, want), labels)
-    return Outcome(True, asc > 0 and asc >= 4 ** (n - 1), labels)
+    return Outcome(True, asc > 0 and (asc >= 4 ** (n - 1) or wide), labels)
 
 
 @st.composite
@@ -130,10 +133,18 @@ SUBCHECKS = [
              rule=RULE),
     SubCheck("single_edits", evaluate_edits, strategy=edit_cases, examples=(800, 10000), shards=(16, 16),
              floors={"neighbours:100+": 100}, rule=RULE),
+    SubCheck("wide_checks_on_long_strands", evaluate_formula,
+             enum=(lambda tier: 48 if tier == "quick" else 384,
+                   lambda i, tier: {"strand": (["AC", "ACGT", "AG", "CT", "AT", "CG", "ACG", "AGT"][i % 8] * 140000)[
+                       :135000 + 2731 * i + 17 * (i % 8)], "n": [18, 19, 20, 24, 33, 40][(i // 8) % 6]}),
+             shards=(16, 16), timeout=600.0, floors={"reduced_sum>=2^32": 40},
+             exhaustive_space="fixed family of strands of 135,000..1,200,000 nucleotides whose ascent-position sum "
+                              "exceeds 2^32, with checks of 18..40 symbols (position sums that need more than one "
+                              "machine word when rendered)", rule=RULE),
     SubCheck("giant_strands", evaluate_formula,
              enum=(lambda tier: 4 if tier == "quick" else 8,
                    lambda i, tier: {"strand": (["AC", "CA", "ACGT", "TGCA", "AG", "GA", "CT", "TC"][i] * 600000)[
-                       :1048576 + [7, 600, 1, 90001, 3, 5, 1048577, 2][i]], "n": [12, 5, 2, 9, 12, 3, 7, 11][i]}),
+                       :1048576 + [7, 600, 1, 90001, 3, 5, 1048577, 2][i]], "n": [20, 5, 18, 9, 33, 3, 24, 11][i]}),
              shards=(4, 8), exhaustive_space="strands of 1,048,577..2,097,153 nucleotides (beyond 2^20) with ascents at "
                                              "even and at odd positions", rule=RULE, timeout=600.0),
 ]
